@@ -33,7 +33,9 @@ fn eval_tcp_throughput_inv(rtt: f64, target_rate_bps: u32) -> f64 {
     let mut a = 0.0;
     let mut b = 1.0;
 
-    loop {
+    // The target may be unreachable (e.g. below the rate the equation yields at p = 1), so the
+    // search is bounded: 64 halvings exhaust the precision of an interval within [0, 1].
+    for _ in 0 .. 64 {
         let c = (b + a)/2.0;
 
         let rate = eval_tcp_throughput(rtt, c);
@@ -56,6 +58,8 @@ fn eval_tcp_throughput_inv(rtt: f64, target_rate_bps: u32) -> f64 {
             return c;
         }
     }
+
+    (b + a)/2.0
 }
 
 #[derive(Debug,PartialEq)]
